@@ -56,8 +56,18 @@ class C08(ScanCheck):
                     h = sc.hs(Dv + sc.vi(pos))
                     head = "open %s %s %s %d" % (sc.sc(v).hex(), S, K, pos)
                     amounts = AMOUNTS + [rng.getrandbits(64), rng.getrandbits(40)]
-                    for a in amounts:
+                    # amounts and masks whose ENCRYPTED form is a special pattern: the compact amount equal to its own key stream
+                    # (eight zero bytes on the wire), its complement (eight 0xff), one off; the legacy mask -Hs(shared) (32 zero
+                    # bytes).  Legal sender output, indistinguishable from a placeholder by inspection
+                    k8 = int.from_bytes(sc.keccak(b"amount" + sc.sc(h))[:8], "little")
+                    s1_ = sc.hs(sc.sc(h))
+                    special = [(k8, None), (k8 ^ (2**64 - 1), None), (k8 ^ 1, None), (0, (-s1_) % L), (k8, (1 - s1_) % L)] \
+                        if pos in (0, 128) else []
+                    for a in amounts + special:
                         y = rng.choice([0, 1, L - 1, sc.rscalar(rng), sc.rscalar(rng), sc.rscalar(rng)])
+                        if isinstance(a, tuple):
+                            a, y0 = a
+                            y = y if y0 is None else y0
                         for enc in (sc.ENC_LEGACY, sc.ENC_COMPACT):
                             ecdh, commit, yy = self.encode(enc, a, y, h)
                             self.add_open(cases, head, enc, ecdh, commit, h, "open:sender " + ("legacy" if enc == 1 else "compact"),
@@ -162,6 +172,17 @@ class C08(ScanCheck):
                     s2 = dict(base)
                     s2["outs"] = outs2
                     scen.append((s2, [(r, None)], "scan:commitment-corrupted rct%d" % t))
+                # the owned output carries an amount / mask whose encrypted form is all zero (or all ones): a legal sender output
+                hsh = sc.send_output(base, i, outs[i])["shared"]
+                k8 = int.from_bytes(sc.keccak(b"amount" + sc.sc(hsh))[:8], "little")
+                for am, mk in ((k8, None), (k8 ^ (2**64 - 1), None), (0, (-sc.hs(sc.sc(hsh))) % L)):
+                    outs4 = [dict(o) for o in outs]
+                    outs4[i]["amount"] = am
+                    if mk is not None:
+                        outs4[i]["mask"] = mk
+                    s4 = dict(base)
+                    s4["outs"] = outs4
+                    scen.append((s4, [(r, None)], "scan:encrypted-form-special rct%d" % t))
                 outs3 = [dict(o) for o in outs]
                 outs3[i]["cov"] = sc.garbage_key(rng)
                 s3 = dict(base)
